@@ -233,7 +233,6 @@ Proof. reflexivity. Qed.
 (* ====================================================================== *)
 (* 2. Header lists <-> metadata                                            *)
 (* ====================================================================== *)
-Definition get_or_nil (o : option (list bytes)) : list bytes := match o with Some l => l | None => [] end.
 Definition is_some {A} (o : option A) : bool := match o with Some _ => true | None => false end.
 
 Lemma bytes_eqb_sym a b : bytes_eqb a b = bytes_eqb b a.
@@ -344,11 +343,6 @@ Section MetadataProofs.
   Let to_md := md_of_proto b64dec.
   Let of_md := proto_of_md b64enc.
 
-  (* what a `-bin` value reads after going to metadata and back: the base64 text of its
-     decoded form, i.e. encoded once *)
-  Definition once (k : bytes) (vs : list bytes) : list bytes :=
-    if is_bin k then map (fun v => b64enc (decode_or_raw b64dec v)) vs else vs.
-
   Lemma md_step_is_build :
     md_step b64dec = build_step (fun h : header => lower (fst h))
                                 (fun h => if is_bin (lower (fst h)) then map dor (snd h) else snd h).
@@ -393,21 +387,21 @@ Section MetadataProofs.
     (forall k, In k (map fst (of_md (to_md hs))) <-> exists h, In h hs /\ lower (fst h) = k) /\
     (forall k, md_get (to_md hs) k =
                if occurs k hs then Some (if is_bin k then map dor (values_for k hs) else values_for k hs) else None) /\
-    (forall k, md_get (of_md (to_md hs)) k = if occurs k hs then Some (once k (values_for k hs)) else None) /\
+    (forall k, md_get (of_md (to_md hs)) k = if occurs k hs then Some (once b64enc b64dec k (values_for k hs)) else None) /\
     (b64_contract b64enc b64dec -> canonical_bin b64enc hs ->
      forall k, md_get (of_md (to_md hs)) k = if occurs k hs then Some (values_for k hs) else None).
   Proof.
-    assert (G : forall k, md_get (of_md (to_md hs)) k = if occurs k hs then Some (once k (values_for k hs)) else None).
-    { intros k. rewrite proto_of_md_get, md_of_proto_get. unfold once.
+    assert (G : forall k, md_get (of_md (to_md hs)) k = if occurs k hs then Some (once b64enc b64dec k (values_for k hs)) else None).
+    { intros k. rewrite proto_of_md_get, md_of_proto_get. unfold once, bin_meaning; fold dor.
       destruct (occurs k hs); [|reflexivity]. destruct (is_bin k); [rewrite map_map|]; reflexivity. }
     split; [rewrite proto_of_md_keys; apply md_of_proto_nodup|].
     split; [|split; [apply md_of_proto_get|split; [exact G|]]].
     - intros k. rewrite <- md_get_in, G, <- occurs_iff. destruct (occurs k hs); split; congruence.
     - intros HB HC k. rewrite G. destruct (occurs k hs); [|reflexivity]. f_equal.
-      unfold once. destruct (is_bin k) eqn:Bk; [|reflexivity].
+      unfold once, bin_meaning; fold dor. destruct (is_bin k) eqn:Bk; [|reflexivity].
       rewrite <- (map_id (values_for k hs)) at 2. apply map_ext_in. intros v Hv.
       destruct (in_values_for _ _ _ Hv) as (h & Hh & <- & Hvh).
-      destruct (HC h v Hh Bk Hvh) as (raw & ->). unfold decode_or_raw. rewrite HB. reflexivity.
+      destruct (HC h v Hh Bk Hvh) as (raw & Hraw & ->). unfold bin_meaning. rewrite (HB raw Hraw). reflexivity.
   Qed.
 
   (* metadata -> header list -> metadata *)
@@ -426,19 +420,30 @@ Section MetadataProofs.
     - cbn [orb app]. split; assumption.
   Qed.
 
+  Lemma md_get_bytes (m : md) k vs :
+    Forall (fun kv => Forall (Forall is_byte) (snd kv)) m -> md_get m k = Some vs -> Forall (Forall is_byte) vs.
+  Proof.
+    induction m as [|[k0 vs0] m IH]; intros HY E; [discriminate|].
+    inversion HY as [|? ? H0 Hm]; subst. cbn [md_get] in E. destruct (bytes_eqb k k0).
+    - inversion E; subst. exact H0.
+    - apply IH; assumption.
+  Qed.
+
   Lemma md_roundtrip_back_proof (m : md) :
     b64_contract b64enc b64dec ->
     NoDup (map fst m) -> Forall (fun kv => lower (fst kv) = fst kv) m ->
+    Forall (fun kv => Forall (Forall is_byte) (snd kv)) m ->
     forall k, md_get (to_md (of_md m)) k = md_get m k.
   Proof.
-    intros HB ND HL k. rewrite md_of_proto_get.
+    intros HB ND HL HY k. rewrite md_of_proto_get.
     assert (ND' : NoDup (map fst (of_md m))) by (rewrite proto_of_md_keys; exact ND).
     assert (HL' : Forall (fun kv => lower (fst kv) = fst kv) (of_md m)).
     { unfold of_md, proto_of_md. rewrite Forall_map. exact HL. }
     destruct (values_for_unique (of_md m) k ND' HL') as (-> & ->).
-    rewrite proto_of_md_get. destruct (md_get m k) as [vs|]; [|reflexivity]. cbn [is_some get_or_nil].
+    rewrite proto_of_md_get. destruct (md_get m k) as [vs|] eqn:EG; [|reflexivity]. cbn [is_some get_or_nil].
     f_equal. destruct (is_bin k); [|reflexivity]. rewrite map_map.
-    rewrite <- (map_id vs) at 2. apply map_ext. intros v. unfold dor, decode_or_raw. rewrite HB. reflexivity.
+    rewrite <- (map_id vs) at 2. apply map_ext_in. intros v Hv. unfold dor, decode_or_raw. rewrite HB; [reflexivity|].
+    pose proof (md_get_bytes m k vs HY EG) as HV. rewrite Forall_forall in HV. apply (HV v Hv).
   Qed.
 
   (* ---- key/value pairs appended one at a time (grpc-go's outgoing metadata, http.Header.Add) ---- *)
@@ -500,12 +505,12 @@ Section MetadataProofs.
     NoDup (map fst (outgoing_reported b64enc b64dec hs)) /\
     (* the metadata handed to grpc-go is what ConvertProtoHeaderToMetadata builds (names without a value carry nothing) *)
     (forall k, md_get (grpc_outgoing_md (outgoing_pairs b64dec hs)) k = some_nonempty (get_or_nil (md_get (to_md hs) k))) /\
-    (forall k, md_get (outgoing_reported b64enc b64dec hs) k = some_nonempty (once k (values_for k hs))) /\
+    (forall k, md_get (outgoing_reported b64enc b64dec hs) k = some_nonempty (once b64enc b64dec k (values_for k hs))) /\
     (b64_contract b64enc b64dec -> canonical_bin b64enc hs ->
      forall k, md_get (outgoing_reported b64enc b64dec hs) k = some_nonempty (values_for k hs)).
   Proof.
-    assert (G : forall k, md_get (outgoing_reported b64enc b64dec hs) k = some_nonempty (once k (values_for k hs))).
-    { intros k. unfold outgoing_reported. fold of_md. rewrite proto_of_md_get, outgoing_md_get. unfold once.
+    assert (G : forall k, md_get (outgoing_reported b64enc b64dec hs) k = some_nonempty (once b64enc b64dec k (values_for k hs))).
+    { intros k. unfold outgoing_reported. fold of_md. rewrite proto_of_md_get, outgoing_md_get. unfold once, bin_meaning; fold dor.
       destruct (is_bin k).
       - rewrite some_nonempty_map, map_map. reflexivity.
       - destruct (some_nonempty (values_for k hs)); reflexivity. }
@@ -518,9 +523,250 @@ Section MetadataProofs.
         assert (occurs k hs = true) by (apply occurs_iff; exists h; auto). congruence. }
       rewrite E. destruct (is_bin k); reflexivity.
     - intros HB HC k. rewrite G. f_equal.
-      unfold once. destruct (is_bin k) eqn:Bk; [|reflexivity].
+      unfold once, bin_meaning; fold dor. destruct (is_bin k) eqn:Bk; [|reflexivity].
       rewrite <- (map_id (values_for k hs)) at 2. apply map_ext_in. intros v Hv.
       destruct (in_values_for _ _ _ Hv) as (h & Hh & <- & Hvh).
-      destruct (HC h v Hh Bk Hvh) as (raw & ->). unfold decode_or_raw. rewrite HB. reflexivity.
+      destruct (HC h v Hh Bk Hvh) as (raw & Hraw & ->). unfold bin_meaning. rewrite (HB raw Hraw). reflexivity.
   Qed.
 End MetadataProofs.
+
+(* ---- internal/headers.go: AddHeaders / AddTrailers into an http.Header and back ---- *)
+Lemma fold_left_flat_map {A B C} (g : C -> B -> C) (p : A -> list B) l : forall m,
+  fold_left g (flat_map p l) m = fold_left (fun m a => fold_left g (p a) m) l m.
+Proof.
+  induction l as [|a l IH]; intros m; [reflexivity|].
+  cbn [flat_map fold_left]. rewrite fold_left_app. apply IH.
+Qed.
+
+Lemma fold_left_map {A B C} (g : C -> B -> C) (q : A -> B) l : forall m,
+  fold_left g (map q l) m = fold_left (fun m v => g m (q v)) l m.
+Proof. induction l as [|a l IH]; intros m; [reflexivity|]. cbn [map fold_left]. apply IH. Qed.
+
+Lemma add_headers_is_pairs prefix src :
+  add_headers prefix src [] =
+  pairs_md canonical_key (flat_map (fun h : header => map (fun v => (prefix ++ fst h, v)) (snd h)) src).
+Proof.
+  unfold add_headers, pairs_md. rewrite fold_left_flat_map.
+  generalize (@nil (bytes * list bytes)). induction src as [|h src IH]; intros m; [reflexivity|].
+  cbn [fold_left]. rewrite fold_left_map. cbn [fst snd]. apply IH.
+Qed.
+
+Lemma lower_upper_byte c : lower_byte (upper_byte c) = lower_byte c.
+Proof.
+  unfold lower_byte, upper_byte.
+  destruct (N.leb_spec 97 c), (N.leb_spec c 122); cbn [andb];
+    repeat match goal with |- context [N.leb ?a ?b] => destruct (N.leb_spec a b) end; cbn [andb]; lia.
+Qed.
+
+Lemma lower_lower_byte c : lower_byte (lower_byte c) = lower_byte c.
+Proof.
+  unfold lower_byte.
+  destruct (N.leb_spec 65 c), (N.leb_spec c 90); cbn [andb];
+    repeat match goal with |- context [N.leb ?a ?b] => destruct (N.leb_spec a b) end; cbn [andb]; lia.
+Qed.
+
+Lemma lower_canon_go s : forall up, lower (canon_go up s) = lower s.
+Proof.
+  induction s as [|c s IH]; intros up; [reflexivity|].
+  cbn [canon_go lower map]. fold (lower (canon_go (c =? 45) s)). fold (lower s). rewrite IH.
+  destruct up; [rewrite lower_upper_byte|rewrite lower_lower_byte]; reflexivity.
+Qed.
+
+(* http.Header canonicalises a name, it never changes it beyond letter case *)
+Lemma canonical_key_case s : lower (canonical_key s) = lower s.
+Proof. unfold canonical_key. destruct (forallb is_token_char s); [apply lower_canon_go|reflexivity]. Qed.
+
+Lemma http_headers_proof prefix hs :
+  let out := convert_to_proto_header (add_headers prefix hs []) in
+  NoDup (map fst out) /\
+  (forall k, md_get out k = some_nonempty (values_under (fun n => canonical_key (prefix ++ n)) k hs)) /\
+  (forall n, lower (canonical_key (prefix ++ n)) = lower prefix ++ lower n).
+Proof.
+  cbv zeta. unfold convert_to_proto_header. rewrite add_headers_is_pairs. split; [apply pairs_md_nodup|]. split.
+  - intros k. rewrite pairs_md_get.
+    rewrite (pairs_of_headers canonical_key (fun h => prefix ++ fst h) (fun _ v => v)).
+    unfold values_under. f_equal. apply flat_map_ext. intros h.
+    destruct (bytes_eqb (canonical_key (prefix ++ fst h)) k); [apply map_id|reflexivity].
+  - intros n. rewrite canonical_key_case. unfold lower. apply map_app.
+Qed.
+
+(* ====================================================================== *)
+(* 3. Percent-encoding                                                     *)
+(* ====================================================================== *)
+Definition all_bytes : list N := map N.of_nat (seq 0 256).
+
+Lemma byte_in c : c < 256 -> In c all_bytes.
+Proof.
+  intros H. unfold all_bytes. apply in_map_iff. exists (N.to_nat c). split; [apply N2Nat.id|].
+  apply in_seq. lia.
+Qed.
+
+(* a fact about every byte value, established by running through the 256 of them *)
+Lemma byte_sweep (P : N -> bool) : forallb P all_bytes = true -> forall c, c < 256 -> P c = true.
+Proof. intros H c Hc. rewrite forallb_forall in H. apply H, byte_in, Hc. Qed.
+
+Definition hex_ok (c : N) : bool :=
+  match unhex (hex_digit (c / 16)), unhex (hex_digit (c mod 16)) with
+  | Some x, Some y => x * 16 + y =? c
+  | _, _ => false
+  end.
+Definition printable_b (c : N) : bool := (32 <=? c) && (c <=? 126).
+
+Lemma hex_ok_all : forallb hex_ok all_bytes = true.
+Proof. vm_compute. reflexivity. Qed.
+Lemma escape_printable_all : forallb (fun c => forallb printable_b (escape_byte c)) all_bytes = true.
+Proof. vm_compute. reflexivity. Qed.
+
+Lemma printable_b_iff c : printable_b c = true <-> printable_ascii c.
+Proof. unfold printable_b, printable_ascii. rewrite andb_true_iff, !N.leb_le. tauto. Qed.
+
+(* the code's byte class is the declarative one *)
+Lemma should_escape_spec c : should_escape c = false <-> safe_char c.
+Proof.
+  unfold should_escape, safe_char, printable_ascii.
+  rewrite !orb_false_iff, !N.ltb_ge, N.eqb_neq. tauto.
+Qed.
+
+Lemma decode_escape_byte c r : c < 256 ->
+  percent_decode (escape_byte c ++ r) =
+  match percent_decode r with Some d => Some (c :: d) | None => None end.
+Proof.
+  intros Hc. unfold escape_byte. destruct (should_escape c) eqn:E.
+  - pose proof (byte_sweep hex_ok hex_ok_all c Hc) as H. unfold hex_ok in H.
+    cbn [app percent_decode]. rewrite N.eqb_refl.
+    destruct (unhex (hex_digit (c / 16))) as [x|]; [|discriminate].
+    destruct (unhex (hex_digit (c mod 16))) as [y|]; [|discriminate].
+    apply N.eqb_eq in H. rewrite H. reflexivity.
+  - cbn [app percent_decode]. unfold should_escape in E. rewrite !orb_false_iff in E.
+    destruct E as (_ & ->). reflexivity.
+Qed.
+
+Lemma percent_encode_flat m : percent_encode m = flat_map escape_byte m.
+Proof.
+  unfold percent_encode. destruct (existsb should_escape m) eqn:E; [reflexivity|].
+  induction m as [|c m IH]; [reflexivity|].
+  cbn [existsb] in E. apply orb_false_iff in E. destruct E as (Ec & Em).
+  cbn [flat_map]. unfold escape_byte at 1. rewrite Ec, <- (IH Em). reflexivity.
+Qed.
+
+Lemma percent_inverse_proof m :
+  Forall is_byte m ->
+  percent_decode (percent_encode m) = Some m /\
+  Forall printable_ascii (percent_encode m) /\
+  (Forall safe_char m -> percent_encode m = m).
+Proof.
+  intros HB. rewrite percent_encode_flat. split; [|split].
+  - induction HB as [|c m Hc Hm IH]; [reflexivity|].
+    cbn [flat_map]. rewrite (decode_escape_byte c _ Hc), IH. reflexivity.
+  - induction HB as [|c m Hc Hm IH]; [constructor|].
+    cbn [flat_map]. apply Forall_app. split; [|exact IH].
+    pose proof (byte_sweep _ escape_printable_all c Hc) as H. cbv beta in H.
+    rewrite forallb_forall in H. apply Forall_forall. intros x Hx. apply printable_b_iff, H, Hx.
+  - intros HS. clear HB. induction HS as [|c m Hc Hm IH]; [reflexivity|].
+    cbn [flat_map]. rewrite IH. unfold escape_byte. apply should_escape_spec in Hc. rewrite Hc. reflexivity.
+Qed.
+
+(* invertible: two messages with the same encoding are the same message *)
+Lemma percent_injective_proof m1 m2 :
+  Forall is_byte m1 -> Forall is_byte m2 -> percent_encode m1 = percent_encode m2 -> m1 = m2.
+Proof.
+  intros H1 H2 E. destruct (percent_inverse_proof m1 H1) as (D1 & _).
+  destruct (percent_inverse_proof m2 H2) as (D2 & _). rewrite E in D1. congruence.
+Qed.
+
+(* ====================================================================== *)
+(* 4. Strict codecs                                                        *)
+(* ====================================================================== *)
+Fixpoint pmsg_ind' (P : pmsg -> Prop)
+         (H : forall k u subs, Forall P subs -> P (PMsg k u subs)) (m : pmsg) : P m :=
+  match m with
+  | PMsg k u subs =>
+    H k u subs ((fix go (l : list pmsg) : Forall P l :=
+                   match l with
+                   | [] => Forall_nil P
+                   | x :: r => Forall_cons x (pmsg_ind' P H x) (go r)
+                   end) subs)
+  end.
+
+(* the recursive walk of the repaired codec finds exactly the messages with an unrecognised field somewhere *)
+Lemma clean_iff m : clean m = true <-> ~ has_unknown m.
+Proof.
+  induction m as [k u subs IH] using pmsg_ind'. cbn [clean]. rewrite andb_true_iff, forallb_forall.
+  rewrite Forall_forall in IH. split.
+  - intros (Hu & Hs) HU. inversion HU as [? ? ? NE|? ? ? s Hin Hsub]; subst.
+    + destruct u; [congruence|discriminate].
+    + apply (IH s Hin); [apply Hs, Hin|exact Hsub].
+  - intros NU. split.
+    + destruct u; [reflexivity|]. exfalso. apply NU. apply hu_here. discriminate.
+    + intros s Hin. apply (IH s Hin). intros Hsub. apply NU. apply (hu_below k u subs s Hin Hsub).
+Qed.
+
+Lemma clean_false_iff m : clean m = false <-> has_unknown m.
+Proof.
+  destruct (clean m) eqn:E.
+  - split; [discriminate|]. intros H. apply clean_iff in E. contradiction.
+  - split; [|reflexivity]. intros _.
+    induction m as [k u subs IH] using pmsg_ind'. cbn [clean] in E. apply andb_false_iff in E.
+    destruct E as [E|E].
+    + apply hu_here. destruct u; [discriminate|discriminate].
+    + rewrite Forall_forall in IH.
+      assert (X : exists s, In s subs /\ clean s = false).
+      { clear IH. induction subs as [|s subs IHs]; [discriminate|]. cbn [forallb] in E.
+        apply andb_false_iff in E. destruct E as [E|E].
+        - exists s. split; [left; reflexivity|exact E].
+        - destruct (IHs E) as (s' & Hin & Hs'). exists s'. split; [right; exact Hin|exact Hs']. }
+      destruct X as (s & Hin & Hs). apply (hu_below k u subs s Hin). apply (IH s Hin Hs).
+Qed.
+
+Section CodecProofs.
+  Variable wire : Type.
+  Variable marshal_bin : pmsg -> wire.
+  Variable unmarshal_bin : wire -> option pmsg.
+  Variable marshal_json : pmsg -> wire.
+  Variable unmarshal_json : bool -> wire -> option pmsg.
+  Variable json_unknown : wire -> Prop.
+  Hypothesis H_bin : bin_contract marshal_bin unmarshal_bin.
+  Hypothesis H_json : json_contract marshal_json unmarshal_json json_unknown.
+
+  Let p_marshal := strict_proto_marshal wire marshal_bin.
+  Let p_unmarshal := strict_proto_unmarshal wire unmarshal_bin.
+  Let j_marshal := strict_json_marshal wire marshal_json.
+  Let j_unmarshal := strict_json_unmarshal wire unmarshal_json.
+
+  (* decode (encode m) = m, for both codecs *)
+  Lemma codec_roundtrip_proof m :
+    ~ has_unknown m -> p_unmarshal (p_marshal m) = COk m /\ j_unmarshal (j_marshal m) = COk m.
+  Proof.
+    intros NU. split.
+    - unfold p_unmarshal, p_marshal, strict_proto_unmarshal, strict_proto_marshal. rewrite H_bin.
+      apply clean_iff in NU. rewrite NU. reflexivity.
+    - unfold j_unmarshal, j_marshal, strict_json_unmarshal, strict_json_marshal.
+      destruct H_json as (RT & _). rewrite (RT m NU). reflexivity.
+  Qed.
+
+  (* unknown fields are rejected, at any depth, never dropped: what is accepted is the
+     library's parse of the data, and it has no unrecognised field anywhere *)
+  Lemma codec_rejects_unknown_proof :
+    (forall w m, unmarshal_bin w = Some m -> has_unknown m -> p_unmarshal w = CErrUnknown) /\
+    (forall w m, p_unmarshal w = COk m -> unmarshal_bin w = Some m /\ ~ has_unknown m) /\
+    (forall m, has_unknown m -> p_unmarshal (marshal_bin m) = CErrUnknown) /\
+    (forall w, json_unknown w -> j_unmarshal w = CErrMalformed) /\
+    (forall w m, j_unmarshal w = COk m -> unmarshal_json false w = Some m /\ ~ has_unknown m).
+  Proof.
+    assert (A : forall w m, unmarshal_bin w = Some m -> has_unknown m -> p_unmarshal w = CErrUnknown).
+    { intros w m E HU. unfold p_unmarshal, strict_proto_unmarshal. rewrite E.
+      apply clean_false_iff in HU. rewrite HU. reflexivity. }
+    split; [exact A|]. split; [|split; [|split]].
+    - intros w m. unfold p_unmarshal, strict_proto_unmarshal.
+      destruct (unmarshal_bin w) as [m'|]; [|discriminate].
+      destruct (clean m') eqn:C; [|discriminate]. intros E. inversion E; subst.
+      split; [reflexivity|apply clean_iff; exact C].
+    - intros m HU. apply (A _ m); [apply H_bin|exact HU].
+    - intros w JU. unfold j_unmarshal, strict_json_unmarshal.
+      destruct H_json as (_ & RJ & _). rewrite (RJ w JU). reflexivity.
+    - intros w m. unfold j_unmarshal, strict_json_unmarshal.
+      destruct (unmarshal_json false w) as [m'|] eqn:E; [|discriminate].
+      intros E'. inversion E'; subst. split; [reflexivity|].
+      destruct H_json as (_ & _ & NU). apply (NU w m E).
+  Qed.
+End CodecProofs.
